@@ -84,8 +84,13 @@ func (f *frame) doCall(cm *ssa.CallCommon, pos token.Pos, st *State, b *ssa.Basi
 		fv := f.val(cm.Value)
 		if fv.Fn != nil && len(fv.Fn.FreeVars) == 0 {
 			callee = fv.Fn
+		} else if fv.Fn == nil {
+			// a caller-supplied callback (function-typed field or parameter): assumed to return and to
+			// write nothing of the memory the contracts talk about (callback-purity assumption)
+			c.assumed["caller-supplied callbacks (calls through function-typed fields/parameters, e.g. ErrorCallback) terminate and write no document/exporter memory"] = true
+			return f.freshResult(resT, st, name)
 		} else {
-			subsetf("call through function value in %s", f.fn)
+			subsetf("call through closure value in %s", f.fn)
 		}
 	}
 	var args []Val
@@ -298,6 +303,19 @@ func (f *frame) applyContract(callee *ssa.Function, con *Contract, args []Val, s
 		results = res.Tuple
 	} else if callee.Signature.Results().Len() == 1 {
 		results = []Val{res}
+	}
+	for _, em := range con.Emits {
+		// ghost event: the call appends the value of em.Expr (evaluated in the pre-state) to the named sequence
+		nH, sH := gseqHeaps(g, em.Seq)
+		v := env.Eval(em.Expr)
+		t := v.Term
+		if !isIface(v.Typ) {
+			t = g.makeIface(t, v.Typ)
+		}
+		n, sq := st.Heap(nH), st.Heap(sH)
+		st.heaps[sH] = c.define("gseq", "(Array Int Iface)", fmt.Sprintf("(store %s %s %s)", sq, n, t))
+		st.heaps[nH] = c.define("gseqn", SInt, fmt.Sprintf("(+ %s 1)", n))
+		c.assumed[fmt.Sprintf("%s appends one event (%s) to the ghost sequence %q and nothing else (emits clause: assumed at call sites, the body writes to an external strings.Builder and is not checked against it)", con.FullKey(), em.Text, em.Seq)] = true
 	}
 	env2 := mkEnv(st)
 	resultEnv(env2, callee, results)
@@ -569,4 +587,13 @@ func (g *Gen) mapLen(mt types.Type, m string, view HeapView) string {
 		g.axioms = append(g.axioms, fmt.Sprintf("(assert (forall ((s (Array %s Bool))) (! (>= (%s s) 0) :pattern ((%s s)))))", ks, name, name))
 	}
 	return fmt.Sprintf("(ite (= %s nil) 0 (%s (select %s %s)))", m, name, view.Heap(dom), m)
+}
+
+
+// gseqHeaps: a named ghost event sequence (length, elements).
+func gseqHeaps(g *Gen, name string) (n, seq string) {
+	n, seq = "G_ghost_gseqn_"+sanitize(name), "G_ghost_gseq_"+sanitize(name)
+	g.TE.noteHeapRaw(n, SInt)
+	g.TE.noteHeapRaw(seq, "(Array Int Iface)")
+	return
 }
